@@ -265,9 +265,14 @@ def generate(repo):
         "(%s, %s)" % (lean_str(a), lean_bool(b)) for a, b in sysfields))
     L.append("/-- SYSTEM_DATA_MODEL -/")
     L.append("def sysVersion : Version := " + lean_version(nss))
-    L.append("/-- (namespace, entity, `*_ENT_SHORT`) -/")
-    L.append("def entityShortConsts : List (String × String × String) := [%s]" % ", ".join(
-        "(%s, %s, %s)" % (lean_str(a), lean_str(b), lean_str(c)) for a, b, c in ent_consts))
+    L.append("/-- (namespace, entity, `*_ENT_SHORT` split into namespace id and entity number) -/")
+    ent_struct = []
+    for a, b, c in ent_consts:
+        mm = re.fullmatch(r"(\d+)\.(\d+)", c)
+        if not mm: raise TranslateError("entity short constant is not of the form <ns>.<k>: %s" % ((a, b, c),))
+        ent_struct.append((a, b, int(mm.group(1)), int(mm.group(2))))
+    L.append("def entityShortConsts : List (String × String × Nat × Nat) := [%s]" % ", ".join(
+        "(%s, %s, %d, %d)" % (lean_str(a), lean_str(b), c, k) for a, b, c, k in ent_struct))
     L.append("/-- (entity of the system namespace, field, `*_SHORT`) -/")
     L.append("def fieldShortConsts : List (String × String × Nat) := [%s]" % ", ".join(
         "(%s, %s, %s)" % (lean_str(a), lean_str(b), c) for a, b, c in field_consts))
